@@ -12,12 +12,14 @@ import (
 	"database/sql"
 	"encoding/json"
 	"fmt"
+	"github.com/jackc/pgx/v4/minipg"
 	"io"
 	"log"
 	"net/http"
 	"net/http/httptest"
 	"net/url"
 	"strings"
+	"sync"
 
 	chimiddleware "github.com/deepmap/oapi-codegen/pkg/chi-middleware"
 	"github.com/ethereum/go-ethereum/common"
@@ -70,14 +72,17 @@ func (p *p2pStub) SendMessage(context.Context, p2pmsg.Message, ...retry.Option) 
 // recorded the value: flush is deterministic without sleeping.
 type receiver[T any] struct {
 	flush chan chan []T
+	stop  chan struct{}
 }
 
 func newReceiver[T any](ch <-chan T) *receiver[T] {
-	r := &receiver[T]{flush: make(chan chan []T)}
+	r := &receiver[T]{flush: make(chan chan []T), stop: make(chan struct{})}
 	go func() {
 		var buf []T
 		for {
 			select {
+			case <-r.stop:
+				return
 			case v, ok := <-ch:
 				if !ok {
 					return
@@ -108,9 +113,15 @@ type Env struct {
 	shutdown *receiver[struct{}]
 	trigger  *receiver[*broker.Event[*epochkghandler.DecryptionTrigger]]
 	baseDump string
+	p2pSeen  int
+	name     string
 }
 
-var envCounter int
+var (
+	envCounter      int
+	envTemplateOnce sync.Once
+	envTemplate     *minipg.DB
+)
 
 // NewEnv builds the real HTTP service on a fresh minipg keyper database that
 // holds two eons (one without, one with a failed DKG result) and one
@@ -126,28 +137,36 @@ func NewEnvWithSpec(writes bool, spec *openapi3.T) *Env { return newEnv(writes, 
 func newEnv(writes bool, variant *openapi3.T) *Env {
 	ctx := context.Background()
 	envCounter++
-	pool, err := pgxpool.Connect(ctx, fmt.Sprintf("minipg://apix-%d", envCounter))
-	if err != nil {
-		panic(err)
-	}
-	if err := db.InitDB(ctx, pool, "keyper-test", kprdatabase.Definition); err != nil {
-		panic(fmt.Sprintf("apix: InitDB: %v", err))
-	}
-	q := kprdatabase.New(pool)
-	must := func(err error) {
+	name := fmt.Sprintf("apix-%d", envCounter)
+	envTemplateOnce.Do(func() {
+		pool, err := pgxpool.Connect(ctx, "minipg://apix-template")
 		if err != nil {
-			panic(fmt.Sprintf("apix: populate: %v", err))
+			panic(err)
 		}
-	}
-	must(q.InsertEon(ctx, kprdatabase.InsertEonParams{Eon: 1, Height: 10, ActivationBlockNumber: 100, KeyperConfigIndex: 1}))
-	must(q.InsertEon(ctx, kprdatabase.InsertEonParams{Eon: 2, Height: 20, ActivationBlockNumber: 200, KeyperConfigIndex: 2}))
-	must(q.InsertDKGResult(ctx, kprdatabase.InsertDKGResultParams{Eon: 2, Success: false, Error: sql.NullString{String: "failed", Valid: true}}))
-	_, err = q.InsertDecryptionKey(ctx, kprdatabase.InsertDecryptionKeyParams{Eon: 1, EpochID: common.FromHex(ExistingEpochID), DecryptionKey: []byte{0xde, 0xc0, 0xde}})
-	must(err)
+		if err := db.InitDB(ctx, pool, "keyper-test", kprdatabase.Definition); err != nil {
+			panic(fmt.Sprintf("apix: InitDB: %v", err))
+		}
+		q := kprdatabase.New(pool)
+		must := func(err error) {
+			if err != nil {
+				panic(fmt.Sprintf("apix: populate: %v", err))
+			}
+		}
+		must(q.InsertEon(ctx, kprdatabase.InsertEonParams{Eon: 1, Height: 10, ActivationBlockNumber: 100, KeyperConfigIndex: 1}))
+		must(q.InsertEon(ctx, kprdatabase.InsertEonParams{Eon: 2, Height: 20, ActivationBlockNumber: 200, KeyperConfigIndex: 2}))
+		must(q.InsertDKGResult(ctx, kprdatabase.InsertDKGResultParams{Eon: 2, Success: false, Error: sql.NullString{String: "failed", Valid: true}}))
+		_, err = q.InsertDecryptionKey(ctx, kprdatabase.InsertDecryptionKeyParams{Eon: 1, EpochID: common.FromHex(ExistingEpochID), DecryptionKey: []byte{0xde, 0xc0, 0xde}})
+		must(err)
+		envTemplate = pool.DB()
+	})
+	// every environment works on its own copy of the populated template database
+	edb := envTemplate.Clone()
+	minipg.Register(name, edb)
+	pool := pgxpool.NewWithDB(name, edb)
 
 	p2p := &p2pStub{}
 	srv := kprapi.NewHTTPService(pool, config{writes}, p2p)
-	e := &Env{Writes: writes, Pool: pool, Srv: srv, P2P: p2p}
+	e := &Env{Writes: writes, Pool: pool, Srv: srv, P2P: p2p, name: name}
 	if variant == nil {
 		e.Router = srv.VerifRouter()
 	} else {
@@ -315,6 +334,58 @@ func (e *Env) do(r Request, traced bool) (o Obs) {
 		}
 	}
 	return o
+}
+
+// Close releases the environment (receiver goroutines, database registration).
+func (e *Env) Close() {
+	close(e.shutdown.stop)
+	close(e.trigger.stop)
+	minipg.Drop(e.name)
+}
+
+// Serve answers one request without the per-request effect accounting of Do
+// (several requests may be in flight, see Effects): status, body, panic and the
+// route the inner router dispatched to.
+func (e *Env) Serve(r Request) (o Obs) {
+	req, ok := r.Build()
+	if !ok {
+		return Obs{Parsed: false}
+	}
+	o.Parsed = true
+	rctx := chi.NewRouteContext()
+	req = req.WithContext(context.WithValue(req.Context(), chi.RouteCtxKey, rctx))
+	rec := httptest.NewRecorder()
+	func() {
+		defer func() {
+			if p := recover(); p != nil {
+				o.Panic = fmt.Sprint(p)
+			}
+		}()
+		e.Router.ServeHTTP(rec, req)
+	}()
+	o.Status = rec.Code
+	o.Body = rec.Body.String()
+	if n := len(rctx.RoutePatterns); n >= 2 && rctx.RoutePatterns[0] == "/v1/*" {
+		o.Reached = rctx.RoutePatterns[n-1]
+	}
+	return o
+}
+
+// Effects reports (and resets) what the server did since the environment was
+// built or Effects was last called: shutdown signals, decryption triggers,
+// database change, p2p messages.
+func (e *Env) Effects() (shutdowns int, triggers []string, dbChanged bool, p2pSent int) {
+	shutdowns = len(e.shutdown.take())
+	for _, t := range e.trigger.take() {
+		triggers = append(triggers, renderTrigger(t))
+	}
+	if d := e.Pool.DB().Dump(); d != e.baseDump {
+		dbChanged = true
+		e.baseDump = d
+	}
+	p2pSent = e.P2P.sent - e.p2pSeen
+	e.p2pSeen = e.P2P.sent
+	return
 }
 
 // Op is one operation of the OpenAPI document.
